@@ -51,7 +51,7 @@ func cmdCheck(args []string) int {
 	os.RemoveAll(env.Work)
 	os.MkdirAll(env.Work, 0o755)
 	defer os.RemoveAll(env.Work)
-	os.RemoveAll(env.Verif + "/replays/" + prop)
+	os.RemoveAll(env.Out + "/replays/" + prop)
 
 	p, err := load.Load(env.Repo)
 	if err != nil {
